@@ -1,6 +1,7 @@
 package rules
 
 import (
+	"fmt"
 	"go/token"
 	"go/types"
 	"sort"
@@ -162,7 +163,15 @@ func classifyErrD(v ssa.Value, depth int, seen map[ssa.Value]bool) *errInfo {
 	case *ssa.ChangeType:
 		return classifyErrD(x.X, depth+1, seen)
 	case *ssa.Parameter:
-		out.Sentinels["?param"] = true
+		idx := -1
+		if x.Parent() != nil {
+			for i, q := range x.Parent().Params {
+				if q == x {
+					idx = i
+				}
+			}
+		}
+		out.Sentinels[fmt.Sprintf("?param:%d", idx)] = true
 		out.Wrap["param"] = true
 		return out
 	case *ssa.Extract:
@@ -201,15 +210,19 @@ func classifyCallErr(c *ssa.Call, idx int, depth int, seen map[ssa.Value]bool) *
 		}
 		rv := resolveSpilled(r.Results[idx], r)
 		in := classifyErrD(rv, depth+1, seen)
-		// a parameter of the callee: substitute the argument
-		if in.Sentinels["?param"] {
-			delete(in.Sentinels, "?param")
+		// parameters of the callee (returned or wrapped): substitute the arguments
+		for k := range in.Sentinels {
+			if !strings.HasPrefix(k, "?param:") {
+				continue
+			}
+			delete(in.Sentinels, k)
 			delete(in.Wrap, "param")
-			if p, ok := rv.(*ssa.Parameter); ok {
-				for i, q := range callee.Params {
-					if q == p && i < len(c.Call.Args) {
-						in.merge(classifyErrD(c.Call.Args[i], depth+1, seen))
-					}
+			var i int
+			fmt.Sscan(strings.TrimPrefix(k, "?param:"), &i)
+			if i >= 0 && i < len(c.Call.Args) {
+				sub := classifyErrD(c.Call.Args[i], depth+1, seen)
+				for sk := range sub.Sentinels {
+					in.Sentinels[sk] = true
 				}
 			} else {
 				in.Sentinels["?"] = true
